@@ -16,8 +16,12 @@ THEOREMS = ["Helios.LB.begin_conserved", "Helios.LB.end_conserved", "Helios.LB.c
 def gen_episode(rng, long=False):
     g = lbgen.Gen(rng, rl=rng.random() < 0.4, cb=rng.random() < 0.4, passive=rng.random() < 0.5)
     n = rng.randint(10, 80 if long else 40)
+    gaps = rng.random() < 0.3
     for _ in range(n):
         g.step_time()
+        if gaps and rng.random() < 0.12:
+            # a quiet hour, a quiet day: what was counted stays counted
+            g.advance(rng.choice([61 * 60, 3 * 3600, 25 * 3600]) * lbgen.SEC)
         k = rng.random()
         if k < 0.45:
             g.begin()
@@ -80,6 +84,9 @@ def oracle(ep, outs):
             for name, cnt in ended_by_name.items():
                 if name in per and per[name][0] != cnt:
                     fails.append("backend %s: total_requests=%d but %d exchanges with it ended" % (name, per[name][0], cnt))
+            for name, cnt in sh.sent_by_name.items():
+                if cnt > 0 and sh.by_name(name) is not None and name not in per:
+                    fails.append("backend %s was sent %d requests and has no metrics entry" % (name, cnt))
             if inflight == 0:
                 for name, (t, okb, fb, conns) in per.items():
                     if conns != 0 and sh.by_name(name) is not None:
@@ -108,6 +115,13 @@ def check(ctx):
     nep = 1500 if ctx.thorough() else 300
     episodes = C.load_corpus(ID) + [gen_episode(ctx.rng, ctx.thorough()) for _ in range(nep)]
     bad = d.check(episodes, oracle=oracle, label="acct")
+    # through the real front end (cmd/helios handler behind a real http.Server): clients that walk away before, during and
+    # after the answer, backends that break off — every request that arrived is counted exactly once when all is quiet
+    from . import c03
+    fe = [["ft new %s 0 0 %d %d" % (st, hc, pl), "ft req cad", "ft req ok", "ft req cad", "ft req cau", "ft req cah", "ft req reset", "ft req cad", "ft req short",
+           "ft req s500", "ft probe"] for st, hc, pl in (("round_robin", 0, 0), ("least_connections", 2, 1), ("ip_hash", 0, 1))]
+    C.Differential(ctx, c03.build(ctx), timeout=600, project=c03.project, confirm=2).check(fe, oracle=c03.oracle, label="front-acct")
+    ctx.cov["front_end_accounting_episodes"] = len(fe)
     # waves of requests finishing together, then quiescence: real gauge and published gauge at zero,
     # accounting consistent (a search over schedules; the conservation theorems carry the claim)
     from . import c12
